@@ -1,13 +1,23 @@
 (* Correspondence checker for C08: the ids produced by proto.MessageIDGen under a scripted
-   clock, and the (msg_id, seq_no) pairs of frames written by a real mtproto.Conn (taken in
-   msg_id order = order of the reqMux critical sections), must equal gen_run / seq_run. *)
+   clock (sequentially, or by several goroutines sharing one generator under a frozen clock:
+   then the SORTED ids are compared), and the (msg_id, seq_no) pairs of frames written by a
+   real mtproto.Conn (taken in msg_id order = order of the reqMux critical sections), must
+   equal gen_run / seq_run.  Requests whose write failed leave no frame: they are part of the
+   clock/kind streams (their id and seq_no were allocated) but masked out of the observation. *)
 From Coq Require Import List ZArith Bool.
 From TD Require Import Lib.RunLib Gen.MsgIdGen Model.MsgId.
 Import ListNotations.
 
-(* (clock readings, observed ids, content?/service flags, observed seqnos) *)
-Definition case := (list Z * list Z * list bool * list Z)%type.
+(* (clock readings, observed ids, content?/service flags, observed seqnos,
+    mask: which requests left a frame ([] = all)) *)
+Definition case := (list Z * list Z * list bool * list Z * list bool)%type.
+Fixpoint pick {A} (l : list A) (m : list bool) : list A :=
+  match l, m with
+  | x :: t, b :: mt => if b then x :: pick t mt else pick t mt
+  | l, [] => l
+  | [], _ => []
+  end.
 Definition ok (c : case) : bool :=
-  let '(clocks, ids, kinds, seqs) := c in
-  zlist_eqb (gen_run gen_init clocks) ids && zlist_eqb (seq_run 0%Z kinds) seqs.
+  let '(clocks, ids, kinds, seqs, mask) := c in
+  zlist_eqb (pick (gen_run gen_init clocks) mask) ids && zlist_eqb (pick (seq_run 0%Z kinds) mask) seqs.
 Definition mismatches (cs : list case) : list nat := mismatch_idx ok cs.
